@@ -314,7 +314,18 @@ def run_property(prop, tier, seed):
             print('UNDECIDED %s' % u)
         if rc == 0:
             rc = 2
-    obligations = total_verified + total_errors
+    # The proof-level claim of this property covers the obligations that are discharged plus the ones reported as violations.
+    # Obligations that fail as KNOWN FINDINGS (genuine defects recorded in known_findings.json) or that belong only to another
+    # property are not part of the claim; they are listed under coverage.excluded_obligations.
+    excluded = []
+    for (k, f) in known_hits:
+        if not str(f.get('obligation', '')).startswith('replay:'):
+            excluded.append({'obligation': f.get('obligation'), 'reason': 'known finding: ' + (k.get('what') or '')[:160]})
+    for nmsg in notes:
+        if nmsg.startswith('NOTE also-failing '):
+            excluded.append({'obligation': nmsg[len('NOTE also-failing '):].split(' ')[0], 'reason': 'belongs to another property only'})
+    n_viol_verus = len([1 for (n_, f_) in violations if f_.get('kind') not in ('bounded-check', 'frame-condition', 'replay')])
+    obligations = total_verified + n_viol_verus
     ev = {
         'property_id': prop,
         'tier': tier,
@@ -340,6 +351,8 @@ def run_property(prop, tier, seed):
             'thorough': extra_info,
             'bounded_stand_ins': bounded_info,
             'frame_conditions': frame_info,
+            'excluded_obligations': excluded,
+            'verus_functions_verified_total': total_verified, 'verus_errors_total': total_errors,
         },
         'assumptions': sorted(set([x for (n, m) in serving for x in getattr(m, 'ASSUMPTIONS', [])])),
         'wall_s': round(wall, 2),
